@@ -14,7 +14,7 @@ typedef GeometryKernel<V3, TopologyKernel> GeoMesh;
 typedef PropertyPtr<int, Entity::Vertex> IntVP;
 typedef PropertyPtr<bool, Entity::Vertex> BoolVP;
 
-enum { C13_CASES = 6 };
+enum { C13_CASES = 2 };
 enum CopyKind { CK_CTOR = 0, CK_ASSIGN_EMPTY = 1, CK_ASSIGN_NONEMPTY = 2, CK_SELF = 3, CK_COPY_OF_COPY = 4 };
 // mutations beyond ops.h
 enum { MU_PW_P = 100, MU_PW_Q, MU_PW_S, MU_PW_A, MU_POS };
